@@ -37,6 +37,10 @@ def report_case(ck, tag, a, b, known, case, exact_count=None, ptol=1e-4):
         if not near:
             dy = 'dyadic' in tag
             key = 'bezier_intersections/dyadic-crossing-lost' if (bezbez and dy) else 'intersect/%s/crossing-lost' % names
+            # a straight Bezier that is exactly or *nearly* axis-parallel (tilt <= 1e-8): its boxes have (almost) no width and the strict overlap test loses the
+            # crossing altogether - the recorded finding; a crossing that is reported, but at other parameters, is not that
+            if bezbez and 'thin stroke' in tag and case.get('rise', 1) <= 1e-8 and not any(abs(u - t1) < 0.05 and abs(v - t2) < 0.05 for u, v in res):
+                key = 'bezier_intersections/axis-parallel-straight-bezier-crossing-lost'
             ck.disagree(key=key, site='svgpathtools/bezier.py:bezier_intersections' if bezbez else 'svgpathtools/path.py:intersect',
                         what='[%s] %r x %r: the crossing at parameters (%r, %r), point %r, is not reported: %s' % (tag, a, b, t1, t2, pt, res), case=case,
                         expected=[t1, t2], observed=[(float(u), float(v)) for u, v in res], driver='completeness')
@@ -108,6 +112,24 @@ def run(ck):
                     report_case(ck, tag + ' scaled %g' % sc_, ta, tb, [(t1, t2, ta.point(t1))], {'pr': pr, 'q': q, 'scale': sc_}, exact_count=1)
         ck.sample('constructed/Q=%d' % q, cases[0])
     ck.count('skipped_small_angle', skipped)
+    # nearly straight, nearly axis-parallel strokes (long thin boxes) against curves: evenly spaced control points make the stroke's parameter the Line's, so the
+    # Line spelling of the stroke gives the true parameters (Line x Bezier is decided by the families above)
+    others = [sp.CubicBezier(1 - 4j, 4.3 + 6j, 6.1 - 6j, 9 + 4.4j), sp.QuadraticBezier(2.2 - 3j, 5.3 + 9j, 8.1 - 3.3j)]
+    for rise in (1e-3, 1e-6, 1e-8, 1e-10, 1e-12):
+        for turn in (0, 90, 180):
+            A_, B_ = 0j, complex(10, rise)
+            strokes = [sp.CubicBezier(A_, A_ + (B_ - A_) / 3, A_ + 2 * (B_ - A_) / 3, B_), sp.QuadraticBezier(A_, (A_ + B_) / 2, B_)]
+            for st in strokes:
+                for ot in others:
+                    st_, ot_, ln_ = (st.rotated(turn, origin=5 + 0j), ot.rotated(turn, origin=5 + 0j), sp.Line(A_, B_).rotated(turn, origin=5 + 0j)) if turn else (st, ot, sp.Line(A_, B_))
+                    truth = ln_.intersect(ot_)
+                    if not truth or any(abs(u_ * 64 - round(u_ * 64)) < 1e-3 or abs(v_ * 64 - round(v_ * 64)) < 1e-3 for u_, v_ in truth) or cm.angle_between(ln_, ot_, truth[0][0], truth[0][1]) < 6.0:
+                        continue
+                    if any(abs(u1 - u2) < 0.05 for i_, (u1, _) in enumerate(truth) for (u2, _) in truth[i_ + 1:]):
+                        continue
+                    ck.case(fp=('thin-stroke', rise, turn, type(st).__name__, type(ot).__name__), nontrivial=True)
+                    for x_, y_, kn in ((st_, ot_, [(u_, v_, ln_.point(u_)) for u_, v_ in truth]), (ot_, st_, [(v_, u_, ln_.point(u_)) for u_, v_ in truth])):
+                        report_case(ck, 'thin stroke rising by %g, turned by %d' % (rise, turn), x_, y_, kn, {'rise': rise, 'turn': turn, 'stroke': type(st).__name__, 'other': repr(ot)})
     # point-symmetric pairs derived from the model's curves: a curve against its own half-turn about M = (B(1/3) + B(2/3))/2 crosses it at the
     # parameter pairs (1/3, 2/3) and (2/3, 1/3) - two well separated crossings with mirrored parameters
     seen_sym = set()
